@@ -216,7 +216,9 @@ def run_valid(args):
         kw["reflective"] = [1]
     elif row["bc"] == "mixed":
         kw["periodic"], kw["reflective"] = [1], [0]
-    if row["pool"]:
+    if row["pool"] == "int2":
+        kw["pool"] = 2   # the integer form: the library starts its own worker processes
+    elif row["pool"]:
         kw["pool"] = PoolLike()
     try:
         s = Sampler(pt, like, **kw)
@@ -259,9 +261,15 @@ def check_valid(run, tier, rng, work):
                 n_steps=[None, 1, 3], n_max_steps=[None, 5], like=["scalar", "vectorized", "blobs"],
                 bc=["none", "periodic", "reflective", "mixed"], pool=[False, True], save_every=[None, 2])
     rows, uncovered = covering(rng, opts, 2 if tier == "quick" else 3, 40 if tier == "quick" else 400)
+    # the integer pool option with and without checkpoints (run in this process: pool workers cannot have children)
+    for k, sv in enumerate([2, None][:2 if tier != "quick" else 1]):
+        r = dict(rows[k % len(rows)], pool="int2", like="scalar", save_every=sv)
+        rows.append(r)
     jobs = [(r, rng.randrange(10 ** 6), str(work / f"r{i}")) for i, r in enumerate(rows)]
+    par = [j for j in jobs if j[0]["pool"] != "int2"]
     with mp.get_context("fork").Pool(min(14, os.cpu_count() or 4)) as pool:
-        results = pool.map(run_valid, jobs)
+        results = pool.map(run_valid, par)
+    results += [run_valid(j) for j in jobs if j[0]["pool"] == "int2"]
     for res in results:
         run.case(key=("valid", str(res["row"])), nontrivial=True)
         what = dict(config=res["row"], random_state=res["seed"])
